@@ -57,23 +57,44 @@ theorem restart_preserves_numbersDirect (cfg : Cfg) (hn : NoCleanup cfg) (r : Ro
     (viewFiles (runOps (init cfg []) ops)).flatten = written ops :=
   FV.FlwB.multi_run_stream_B_numbersDirect cfg hn r hrot hnm ops hm
 
-/-- **TimestampsDirect**: under the guard that an appending run finds the newest stamp without
-    `.restart-N` siblings (`AppendGuard`); without append no guard is needed (the start within the
-    same second gets a collision-free name — the repaired behaviour) -/
+/-- **TimestampsDirect**: full statement, no guard, `append` on or off per run. Without append
+    the start within the same second gets a collision-free name; with append the run continues
+    the NEWEST file of the newest stamp, `.restart-N` siblings included (both the repaired
+    behaviour; the latter since the `fix:` of finding `C06-tsd-append-after-restart-files`) -/
+theorem restart_preserves_timestampsDirect (cfg : Cfg) (hn : NoCleanup cfg) (r : RotCfg)
+    (hrot : cfg.rot = some r) (hnm : r.naming = .timestampsDirect)
+    (ops : List (Op × Nat × Faults)) (hm : FV.FlwB.MultiRun cfg.rot ops) :
+    (viewFiles (runOps (init cfg []) ops)).flatten = written ops :=
+  FV.FlwB.multi_run_stream_B_timestampsDirect cfg hn r hrot hnm ops hm
+
+/-- … both direct namings in one statement -/
+theorem restart_preserves_direct (cfg : Cfg) (hc : FV.FlwB.CfgMB cfg)
+    (ops : List (Op × Nat × Faults)) (hm : FV.FlwB.MultiRun cfg.rot ops) :
+    (viewFiles (runOps (init cfg []) ops)).flatten = written ops :=
+  FV.FlwB.multi_run_stream_B cfg hc ops hm
+
+/-- the guarded form that was provable before the repair (`AppendGuard`: an appending run finds
+    the newest stamp without `.restart-N` siblings); the guard is no longer used, see
+    `restart_preserves_direct` -/
 theorem restart_preserves_timestampsDirect_partial (cfg : Cfg) (hc : FV.FlwB.CfgMB cfg)
     (ops : List (Op × Nat × Faults)) (hm : FV.FlwB.MultiRun cfg.rot ops)
-    (hg : (∃ r, cfg.rot = some r ∧ r.naming = .timestampsDirect) → FV.FlwB.AppendGuard cfg ops) :
+    (_hg : (∃ r, cfg.rot = some r ∧ r.naming = .timestampsDirect) → FV.FlwB.AppendGuard cfg ops) :
     (viewFiles (runOps (init cfg []) ops)).flatten = written ops :=
-  FV.FlwB.multi_run_stream_B_partial cfg hc ops hm hg
+  restart_preserves_direct cfg hc ops hm
 
-/-- The unguarded statement for the direct namings is FALSE of the model and of the code
-    (known finding `C06-tsd-append-after-restart-files`): after several files within one second,
-    an appending restart re-opens the BASE file of that second, so new records land before
-    newer ones (`[1,4,2,3]` instead of `[1,2,3,4]`). -/
-theorem tsd_append_violation_witness : ¬ FV.FlwB.multi_run_stream_B_full_statement :=
-  FV.FlwB.multi_run_stream_B_full_statement_false
+/-- This history (several files within one second — two forced rotations —, shutdown, an
+    appending restart, one write) was the witness of the defect repaired by the `fix:` commit
+    (finding `C06-tsd-append-after-restart-files`): the appending restart re-opened the BASE file
+    of that second, so the new record landed before newer ones (`[1, 4, 2, 3]`). Now the run
+    continues the newest file: the stream is complete and in order. -/
+theorem tsd_append_former_witness :
+    FV.FlwB.CfgMB FV.FlwB.wCfg ∧ FV.FlwB.MultiRun FV.FlwB.wCfg.rot FV.FlwB.wOps ∧
+    viewFiles (runOps (init FV.FlwB.wCfg []) FV.FlwB.wOps) = [[1], [2], [3, 4]] ∧
+    written FV.FlwB.wOps = [1, 2, 3, 4] ∧
+    (viewFiles (runOps (init FV.FlwB.wCfg []) FV.FlwB.wOps)).flatten = written FV.FlwB.wOps :=
+  FV.FlwB.tsd_append_restart_former_witness
 
-/-- no file of the direct namings is ever overwritten or truncated (holds even in the finding's scenario) -/
+/-- no file of the direct namings is ever overwritten or truncated -/
 theorem fresh_names_direct (cfg : Cfg) (hc : FV.FlwB.CfgMB cfg) (ops : List (Op × Nat × Faults))
     (hm : FV.FlwB.MultiRun cfg.rot ops) :
     ∀ pre o post, ops = pre ++ o :: post →
